@@ -5,4 +5,5 @@ CONSTANTS
   CloseFirst = TRUE
   ReadPipeFix = FALSE
   ErrPipeFix = TRUE
+  ReleaseAllFix = TRUE
 INVARIANT Reaped
